@@ -64,8 +64,8 @@ Definition set_margins_ok (s : screen) (top bottom : option N) : bool :=
 (* cursor_down: `self.lines - 1` when there are no margins; `self.cursor.y + count` *)
 Definition cursor_down_ok (s : screen) (n : option N) : bool :=
   (match margins s with Some _ => true | None => 1 <=? lines s end) && fits (cy s + nhat n).
-(* cursor_forward: `self.cursor.x += count`; ensure_hbounds *)
-Definition cursor_forward_ok (s : screen) (n : option N) : bool := fits (cx s + nhat n) && hb_ok s.
+(* cursor_forward: `saturating_add`; ensure_hbounds *)
+Definition cursor_forward_ok (s : screen) (n : option N) : bool := hb_ok s.
 (* cursor_back: `self.cursor.x -= 1` under `x == columns`; guarded `x -= count`; ensure_hbounds *)
 Definition cursor_back_ok (s : screen) (n : option N) : bool :=
   (if cx s =? columns s then 1 <=? cx s else true) && hb_ok s.
@@ -83,23 +83,21 @@ Definition index_ok (s : screen) : bool :=
 Definition reverse_index_ok (s : screen) : bool :=
   (match margins s with Some _ => true | None => 1 <=? lines s end) &&
   (let '(top, bottom) := margins_or_full s in if cy s =? top then fits (bottom + 1) else true).
-(* insert_characters / delete_characters: `x + count` for x in cursor.x .. columns *)
-Definition shift_chars_ok (s : screen) (n : option N) : bool :=
-  (columns s <=? cx s) || fits (columns s - 1 + nhat n).
+(* insert_characters / delete_characters: `x.saturating_add(count) < columns`; the unchecked `x + count` sits under that test *)
+Definition shift_chars_ok (s : screen) (n : option N) : bool := true.
 (* insert_lines / delete_lines: eager `self.lines - 1`; `y + count` for y in cursor.y ..= bottom *)
 Definition shift_lines_ok (s : screen) (n : option N) : bool :=
   (1 <=? lines s) &&
   (let '(top, bottom) := margins_or_full s in
    if (top <=? cy s) && (cy s <=? bottom) then fits (bottom + nhat n) else true).
-(* erase_in_line: `self.cursor.x + 1` for how = 1 *)
-Definition erase_in_line_ok (s : screen) (how : option N) : bool :=
-  if match how with Some h => h | None => 0 end =? 1 then fits (cx s + 1) else true.
+(* erase_in_line: `self.cursor.x.saturating_add(1)` for how = 1 *)
+Definition erase_in_line_ok (s : screen) (how : option N) : bool := true.
 (* erase_in_display: `self.cursor.y + 1` for how = 0; then erase_in_line for how = 0, 1 *)
 Definition erase_in_display_ok (s : screen) (how : option N) : bool :=
   let h := match how with Some h => h | None => 0 end in
   (if h =? 0 then fits (cy s + 1) else true) && (if (h =? 0) || (h =? 1) then erase_in_line_ok s (Some h) else true).
-(* erase_characters: `self.cursor.x + count` *)
-Definition erase_characters_ok (s : screen) (n : option N) : bool := fits (cx s + nhat n).
+(* erase_characters: `self.cursor.x.saturating_add(count)` *)
+Definition erase_characters_ok (s : screen) (n : option N) : bool := true.
 (* tab: `column.min(self.columns - 1)` *)
 Definition tab_ok (s : screen) : bool := 1 <=? columns s.
 (* reset: cursor_position(None, None) on the cleared state *)
@@ -164,9 +162,9 @@ Definition reset_mode_ok (s : screen) (ms : list N) (private : bool) : bool :=
   let s := if nmem DECCOLM ml then cursor_position (erase_in_display s1 (Some 2)) None None else s in
   okc && (if nmem DECOM ml then cursor_position_ok s None None else true).
 
-(* draw, one character: the wrap runs linefeed (index); IRM runs insert_characters; `cursor.x + 1` for a wide
-   character; `self.columns - 1` for a combining mark at column 0 of a row > 0 (`cursor.x - 1`, `cursor.y - 1` are
-   guarded, the no-wrap step back saturates); finally `cursor.x + char_width` *)
+(* draw, one character: the wrap runs linefeed (index); IRM runs insert_characters; `self.columns - 1` for a combining
+   mark at column 0 of a row > 0 (`cursor.x - 1`, `cursor.y - 1` are guarded, the no-wrap step back and both advances
+   saturate) *)
 Definition draw_char_ok (s : screen) (ch : cp) : bool :=
   let w := wid ch in
   let ok1 := if cx s =? columns s then
@@ -179,12 +177,11 @@ Definition draw_char_ok (s : screen) (ch : cp) : bool :=
   let ok2 := if has_mode s1 IRM && (0 <? w) then shift_chars_ok s1 (Some w) else true in
   let s2 := if has_mode s1 IRM && (0 <? w) then insert_characters s1 (Some w) else s1 in
   let ok3 := if w =? 1 then true
-             else if w =? 2 then fits (cx s2 + 1)
+             else if w =? 2 then true                     (* `cursor.x.saturating_add(1) < columns` guards `cursor.x + 1` *)
              else if (w =? 0) && is_comb ch then
                if 0 <? cx s2 then true else if 0 <? cy s2 then 1 <=? columns s2 else true
              else true in
-  let ok4 := if 0 <? w then fits (cx s2 + w) else true in
-  ok1 && ok2 && ok3 && ok4.
+  ok1 && ok2 && ok3.                                   (* the final advance is `saturating_add` *)
 Fixpoint draw_chars_ok (s : screen) (cs : list cp) : bool :=
   match cs with [] => true | c :: r => draw_char_ok s c && draw_chars_ok (draw_char s c) r end.
 Definition draw_ok (s : screen) (text : str) : bool := draw_chars_ok s (map (translate_char s) text).
